@@ -4,6 +4,7 @@ import (
 	"fmt"
 	"go/token"
 	"go/types"
+	"strconv"
 	"strings"
 
 	"golang.org/x/tools/go/ssa"
@@ -83,7 +84,11 @@ func (vm *VM) inputName(name string) string {
 func (vm *VM) freshInput(name string, w int, signed bool) IntV {
 	nm := vm.inputName(name)
 	if vm.ex.concModel != nil {
-		v := vm.ex.concModel[nm]
+		v, have := vm.ex.concModel[nm]
+		if !have && vm.ex.random != nil {
+			v = randomValue(vm.ex.random, w)
+			vm.ex.concModel[nm] = v
+		}
 		vm.inputs = append(vm.inputs, inputRec{name: nm})
 		if w == 0 {
 			return IntV{C: v}
@@ -213,14 +218,10 @@ func init() {
 		s := argStr(a[0])
 		if vs, ok := a[1].([]Value); ok {
 			for _, v := range vs {
-				if ifc, ok := v.(Iface); ok {
-					s += " " + valStr(ifc.V)
-				} else {
-					s += " " + valStr(v)
-				}
+				s += " " + obsFmt(v)
 			}
 		}
-		if len(g.vm.observes) < 200 {
+		if len(g.vm.observes) < 400 {
 			g.vm.observes = append(g.vm.observes, s)
 		}
 		g.vm.logEvent("observe: " + s)
@@ -779,6 +780,59 @@ func init() {
 	intrinsics = I
 	registerEnvIntrinsics(I)
 }
+
+// obsFmt mirrors verif.fmtObs of the native harness API.
+func obsFmt(v Value) string {
+	var t types.Type
+	if ifc, ok := v.(Iface); ok {
+		if ifc.T == nil {
+			return "nil"
+		}
+		if types.Implements(ifc.T, errorIface) {
+			return "err"
+		}
+		t, v = ifc.T, ifc.V
+	}
+	switch x := v.(type) {
+	case nil:
+		return "nil"
+	case IntV:
+		if x.S != nil {
+			return "sym(" + x.S.String() + ")"
+		}
+		if t != nil && isInteger(t) {
+			if _, signed := intInfo(t); !signed {
+				return fmt.Sprintf("%d", x.C)
+			}
+		}
+		return fmt.Sprintf("%d", int64(x.C))
+	case BoolV:
+		if x.S != nil {
+			return "sym(" + x.S.String() + ")"
+		}
+		return fmt.Sprintf("%v", x.C)
+	case string:
+		return strconv.Quote(x)
+	case []Value:
+		var sb strings.Builder
+		sb.WriteString("[")
+		for i, b := range x {
+			if i > 0 {
+				sb.WriteString(" ")
+			}
+			if iv, ok := b.(IntV); ok && iv.S == nil {
+				fmt.Fprintf(&sb, "%d", iv.C&0xff)
+			} else {
+				sb.WriteString("sym")
+			}
+		}
+		sb.WriteString("]")
+		return sb.String()
+	}
+	return fmt.Sprintf("?%T", v)
+}
+
+var errorIface = types.Universe.Lookup("error").Type().Underlying().(*types.Interface)
 
 func (g *G) asSlice(v Value) []Value {
 	switch v := v.(type) {
